@@ -1,5 +1,7 @@
-(* Model of pfcpiface/fteid.go (FTEIDGenerator) and of the local-SEID choice in
-   sessions.go NewPFCPSession.  No proofs here. *)
+(* Model of pfcpiface/fteid.go (FTEIDGenerator), of the local-SEID choice in sessions.go
+   NewPFCPSession, and of the part of messages_session.go handleSessionEstablishmentRequest that
+   carries the chosen identifiers into the PDRs, the datapath call and the response.
+   No proofs here. *)
 From Coq Require Import NArith List Bool.
 Import ListNotations.
 Open Scope N_scope.
@@ -8,34 +10,40 @@ Definition U32 : N := 4294967296.
 Definition MAXV : N := 4294967295.      (* maxValue = math.MaxUint32 *)
 Definition MINV : N := 1.               (* minValue *)
 
-Record gen := Gen { offset : N; used : list N }.   (* usedMap: set of offsets *)
+(* offset: uint32 cursor; usedMap: the set of offsets marked used (a Go map: keys are unique) *)
+Record gen := Gen { offset : N; used : list N }.
+
+Definition new_gen : gen := Gen 0 [].   (* NewFTEIDGenerator *)
 
 Definition mem (x : N) (l : list N) : bool := existsb (N.eqb x) l.
 Fixpoint del (x : N) (l : list N) : list N :=
   match l with [] => [] | y :: r => if x =? y then del x r else y :: del x r end.
 
-(* offset++ ; offset = offset % maxValue   (uint32) *)
+(* updateOffset:  offset++ (uint32, wraps at 2^32) ; offset = offset % maxValue *)
 Definition update_offset (o : N) : N := ((o + 1) mod U32) mod MAXV.
 
 Inductive ares := AOk (id : N) (g : gen) | AErr (g : gen) | AFuel.
 
-(* the for { } loop of Allocate; fuel bounds the iterations *)
+(* the for { } loop of Allocate; [fuel] bounds the iterations (sufficiency is proved in
+   Proofs/FteidProofs.v: AFuel is never returned).
+   result: None = out of fuel, Some None = full cycle (error), Some (Some off) = free offset *)
 Fixpoint find_free (fuel : nat) (begin off : N) (u : list N) : option (option N) :=
   match fuel with
   | O => None
   | S f =>
     if mem off u then
       let off' := update_offset off in
-      if off' =? begin then Some None       (* full cycle: error, offset left at begin *)
+      if off' =? begin then Some None       (* back at offsetBegin: error, offset == offsetBegin *)
       else find_free f begin off' u
     else Some (Some off)
   end.
 
+(* Allocate: usedMap[offset] = true; id := offset + minValue (uint32); updateOffset() *)
 Definition allocate (g : gen) : ares :=
   match find_free (S (length (used g))) (offset g) (offset g) (used g) with
   | None => AFuel
   | Some None => AErr (Gen (offset g) (used g))
-  | Some (Some off) => AOk (off + MINV) (Gen (update_offset off) (off :: used g))
+  | Some (Some off) => AOk ((off + MINV) mod U32) (Gen (update_offset off) (off :: used g))
   end.
 
 Definition free_id (id : N) (g : gen) : gen :=
@@ -44,14 +52,15 @@ Definition free_id (id : N) (g : gen) : gen :=
 Definition is_allocated (id : N) (g : gen) : bool :=
   if id <? MINV then false else mem (id - MINV) (used g).
 
-Inductive op := OAlloc | OFree (id : N).
-Inductive out := ROk (id : N) | RErr | RFuel | RNone.
+Inductive op := OAlloc | OFree (id : N) | OIsAlloc (id : N).
+Inductive out := ROk (id : N) | RErr | RFuel | RNone | RBool (b : bool).
 
 Definition step (g : gen) (o : op) : gen * out :=
   match o with
   | OAlloc => match allocate g with
               | AOk id g' => (g', ROk id) | AErr g' => (g', RErr) | AFuel => (g, RFuel) end
   | OFree id => (free_id id g, RNone)
+  | OIsAlloc id => (g, RBool (is_allocated id g))
   end.
 
 Fixpoint run (g : gen) (ops : list op) : gen * list out :=
@@ -60,14 +69,142 @@ Fixpoint run (g : gen) (ops : list op) : gen * list out :=
   | o :: r => let '(g', x) := step g o in let '(g'', xs) := run g' r in (g'', x :: xs)
   end.
 
-(* ---- NewPFCPSession: first of at most [retries] draws that is not a stored local SEID ---- *)
-Fixpoint new_seid (retries : nat) (draws : list N) (store : list N) : option N * list N :=
+(* the TEIDs currently handed out *)
+Definition live_ids (g : gen) : list N := map (fun o => o + MINV) (used g).
+
+(* The TEID sentence of the property as a boolean monitor over one observed history:
+   [held] = ids handed out and not yet released.  Every id returned is in [1, 2^32-1] and not
+   currently held; a refusal is justified only when all 2^32-1 ids are held; IsAllocated tells
+   the truth.  Evaluated on the model (theorem C07_teid_history) and on the implementation. *)
+Fixpoint hist_ok (held : list N) (ops : list op) (outs : list out) : bool :=
+  match ops, outs with
+  | [], [] => true
+  | OAlloc :: r, ROk id :: s =>
+      (MINV <=? id) && (id <=? MAXV) && negb (mem id held) && hist_ok (id :: held) r s
+  | OAlloc :: r, RErr :: s => (N.of_nat (length held) =? MAXV) && hist_ok held r s
+  | OFree id :: r, RNone :: s => hist_ok (del id held) r s
+  | OIsAlloc id :: r, RBool b :: s => Bool.eqb b (mem id held) && hist_ok held r s
+  | _, _ => false
+  end.
+
+(* ---- NewPFCPSession: the first of at most [retries] draws that is neither 0 nor a stored local
+   SEID.  The random source is an arbitrary stream of draws (nat -> N); [i] is the index of the
+   next draw; the result carries the index after the last draw consumed. ---- *)
+Definition stream := nat -> N.
+
+Fixpoint new_seid (retries : nat) (draws : stream) (i : nat) (store : list N) : option N * nat :=
   match retries with
-  | O => (None, draws)
+  | O => (None, i)
   | S r =>
-    match draws with
-    | [] => (None, [])                      (* stream exhausted: not reachable with an infinite source *)
-    | d :: ds => if mem d store then new_seid r ds store else (Some d, ds)
+    let d := draws i in
+    if (d =? 0) || mem d store then new_seid r draws (S i) store else (Some d, S i)
+  end.
+Definition MAX_RETRIES : nat := 100.      (* maxRetries in NewPFCPConn *)
+
+(* a draw that NewPFCPSession skips *)
+Definition bad_draw (store : list N) (d : N) : bool := (d =? 0) || mem d store.
+
+(* ---- Session establishment, reduced to what concerns the UP-chosen identifiers ---- *)
+Definition CAUSE_ACCEPTED : N := 1.
+Definition CAUSE_REJECTED : N := 64.
+Definition CAUSE_NO_ASSOC : N := 72.
+Definition CAUSE_NO_RESOURCES : N := 73.
+
+(* a Create PDR as far as the F-TEID is concerned: parse outcome, CHOOSE flag, and the TEID / IPv4
+   address of a CP-provided F-TEID *)
+Record cpdr := CPdr { cp_id : N; cp_parse_ok : bool; cp_choose : bool; cp_teid : N; cp_ip : N }.
+(* the pdr handed to the datapath: fseID, pdrID, tunnelTEID, tunnelIP4Dst, UPAllocateFteid *)
+Record dpdr := DPdr { d_fseid : N; d_id : N; d_teid : N; d_ip : N; d_choose : bool }.
+
+(* the Create PDR loop: parsePDR, then Allocate for CHOOSE PDRs.  Left = refusal cause *)
+Fixpoint build_pdrs (lseid access : N) (g : gen) (ps : list cpdr) : gen * (N + list dpdr) :=
+  match ps with
+  | [] => (g, inr [])
+  | p :: r =>
+    if negb (cp_parse_ok p) then (g, inl CAUSE_REJECTED)
+    else
+      let '(g1, x) :=
+        if cp_choose p then
+          match allocate g with
+          | AOk id g' => (g', inr (DPdr lseid (cp_id p) id access true))
+          | AErr g' => (g', inl CAUSE_NO_RESOURCES)
+          | AFuel => (g, inl 0)
+          end
+        else if cp_teid p =? 0 then (g, inr (DPdr lseid (cp_id p) 0 0 false))
+        else (g, inr (DPdr lseid (cp_id p) (cp_teid p) (cp_ip p) false)) in
+      match x with
+      | inl c => (g1, inl c)
+      | inr d =>
+        let '(g2, y) := build_pdrs lseid access g1 r in
+        (g2, match y with inl c => inl c | inr ds => inr (d :: ds) end)
+      end
+  end.
+
+(* addPdrInfo: one Created PDR (pdr id, TEID, IPv4) per PDR with UPAllocateFteid *)
+Definition created_of (ds : list dpdr) : list (N * N * N) :=
+  map (fun d => (d_id d, d_teid d, d_ip d)) (filter d_choose ds).
+
+Inductive eres :=
+| EAccepted (lseid : N) (created : list (N * N * N)) (batch : list dpdr)
+| ERefused (cause : N) (batch : option (list dpdr)).   (* batch = what reached the datapath, if anything *)
+
+(* one association's view: its session store (local SEIDs) and the position in its draw stream *)
+Record conn := Conn { store : list N; drawn : nat }.
+
+Definition establish (retries : nat) (access : N) (draws : stream) (assoc_ok dp_ok : bool)
+           (ps : list cpdr) (c : conn) (g : gen) : eres * conn * gen :=
+  if negb assoc_ok then (ERefused CAUSE_NO_ASSOC None, c, g)
+  else
+    match new_seid retries draws (drawn c) (store c) with
+    | (None, i) => (ERefused CAUSE_NO_RESOURCES None, Conn (store c) i, g)
+    | (Some l, i) =>
+      match build_pdrs l access g ps with
+      | (g', inl cause) => (ERefused cause None, Conn (store c) i, g')
+      | (g', inr ds) =>
+        if dp_ok then (EAccepted l (created_of ds) ds, Conn (l :: store c) i, g')
+        else (ERefused CAUSE_REJECTED (Some ds), Conn (store c) i, g')
+      end
+    end.
+
+(* histories over several associations sharing one generator *)
+Inductive ev :=
+| EvEst (k : nat) (assoc_ok dp_ok : bool) (ps : list cpdr)
+| EvDel (k : nat) (seid : N) (freed : list N).   (* session deletion; [freed] = TEIDs the
+     implementation released (oracle input: none today, FreeID has no caller) *)
+
+Fixpoint set_nth {A} (n : nat) (x : A) (l : list A) : list A :=
+  match l, n with
+  | [], _ => []
+  | _ :: r, O => x :: r
+  | y :: r, S m => y :: set_nth m x r
+  end.
+
+Record world := World { w_conns : list conn; w_gen : gen }.
+
+Definition ev_step (retries : nat) (access : N) (draws : nat -> stream) (w : world) (e : ev)
+  : world * option eres :=
+  match e with
+  | EvEst k assoc_ok dp_ok ps =>
+    match nth_error (w_conns w) k with
+    | None => (w, None)
+    | Some c =>
+      let '(r, c', g') := establish retries access (draws k) assoc_ok dp_ok ps c (w_gen w) in
+      (World (set_nth k c' (w_conns w)) g', Some r)
+    end
+  | EvDel k seid freed =>
+    match nth_error (w_conns w) k with
+    | None => (w, None)
+    | Some c =>
+      (World (set_nth k (Conn (del seid (store c)) (drawn c)) (w_conns w))
+             (fold_left (fun g id => free_id id g) freed (w_gen w)), None)
     end
   end.
-Definition MAX_RETRIES : nat := 100.
+
+Fixpoint ev_run (retries : nat) (access : N) (draws : nat -> stream) (w : world) (es : list ev)
+  : world * list (option eres) :=
+  match es with
+  | [] => (w, [])
+  | e :: r =>
+    let '(w1, x) := ev_step retries access draws w e in
+    let '(w2, xs) := ev_run retries access draws w1 r in (w2, x :: xs)
+  end.
